@@ -1345,10 +1345,11 @@ class RunWsgiStream(Stream):
 
 CHECK = Check(
     prop="C19",
-    gen=["Framing", "RunWsgiFacts", "EnvKeys", "PyFns_Chunked"],
-    modules=["WzVerif.Props.C19", "WzVerif.Props.C19T"],
+    gen=["Framing", "RunWsgiFacts", "EnvKeys", "PyFns_Chunked", "PyFns_Url", "UrlTables", "PyFns_MakeEnviron"],
+    modules=["WzVerif.Props.C19", "WzVerif.Props.C19T", "WzVerif.Props.C19T2"],
     streams=[ChunkLenStream(), DechunkStream(), EncodeStream(), ServerStream(), RunWsgiStream(), EnvironStream(), MakeEnvironStream(), HttpServerPathStream(), PreludeKernels()],
     assumptions=[
+        "C19T2 (WSGIRequestHandler.make_environ as regenerated from the source, up to the TLS client-certificate lookup): urlsplit / unquote (urllib), the TLS flag, the peer and server addresses and server_version are parameters (instantiated with Model/DevServer.lean's urlsplit and pctDecode in the theorems); self.headers.items() is handed over as the list of (name, value) pairs; only the text-valued entries of the environ are kept (wsgi.version, wsgi.input, wsgi.errors, wsgi.multithread, wsgi.multiprocess, wsgi.run_once, werkzeug.socket, REMOTE_PORT are left out), environ['wsgi.input_terminated'] = True is recorded as a flag; client_address is a non-empty (host, port) tuple",
         "DechunkedInput.read_chunk_len and readinto are regenerated from the source by tools/py2lean.py (Gen/PyFns_Chunked.lean) on every run and proved to agree with the hand model for all inputs (Props/C19T): _done / _len and the bytes _rfile still holds are threaded through as explicit state, _rfile.readline / read are the model's primitives, the buffer is a byte list with slice assignment (Util/PyPrelude.lean, stream prelude-kernels), the while loop runs on explicit fuel (len(wire) + 1 suffices: each continuing iteration consumes a byte); a negative _len (never stored by the code) is outside the statement",
         "partial: http.server's request-line / header parsing, sockets, selectors and timing are outside the model; they are only exercised by stream server",
         "rfile is a blocking buffered reader: readline() returns up to and including LF (or everything), read(n) returns n bytes unless the stream ends (modelled as a byte list); that DechunkedInput uses exactly these two calls (not read1 / recv) is the AST obligation serving_io_structure, and the dechunk / server streams feed it through io.BufferedReader over a raw stream that delivers at most k bytes per read, with chunks larger than the buffer and request bodies written to the socket in two pieces",
@@ -1365,7 +1366,7 @@ CHECK = Check(
     ],
     trusted_extra=["CPython http.server, socket, selectors, io (exercised by stream server, not verified)"],
     quick_budget=2500,
-    thorough_budget=30000,
+    thorough_budget=24000,
 )
 
 MANIFEST = {
